@@ -429,38 +429,34 @@ func unpackKey(fs, data string, init int64, hasInit bool, clause string) string 
 	return fmt.Sprintf("unpack fmt=%q data=%s init=%s clause=%s", fs, dataKey(data), is, clause)
 }
 
-// dataKey: hex, with runs of one byte abbreviated.
+// dataKey: hex, with runs of more than three equal bytes abbreviated.
 func dataKey(d string) string {
-	var sb strings.Builder
+	if d == "" {
+		return "empty"
+	}
+	var parts []string
+	plain := ""
 	for i := 0; i < len(d); {
 		j := i
 		for j < len(d) && d[j] == d[i] {
 			j++
 		}
 		if j-i > 3 {
-			fmt.Fprintf(&sb, "%02x*%d.", d[i], j-i)
+			if plain != "" {
+				parts = append(parts, plain)
+				plain = ""
+			}
+			parts = append(parts, fmt.Sprintf("%02x*%d", d[i], j-i))
 		} else {
-			for k := i; k < j; k++ {
-				fmt.Fprintf(&sb, "%02x", d[k])
-			}
-			if j < len(d) {
-				sb.WriteByte('.')
-			}
+			plain += hex.EncodeToString([]byte(d[i:j]))
 		}
 		i = j
 	}
-	if sb.Len() == 0 {
-		return "empty"
+	if plain != "" {
+		parts = append(parts, plain)
 	}
-	return strings.TrimSuffix(sb.String(), ".")
+	return strings.Join(parts, ".")
 }
-
-const (
-	dangerLo = 1 << 17
-	dangerHi = 1 << 48
-)
-
-func dangerous(r refpack.UnpackResult) bool { return r.MaxLen > dangerLo && r.MaxLen <= dangerHi }
 
 func matchesUnpack(got res, want refpack.UnpackResult) (ok bool, clause string) {
 	switch want.St {
@@ -499,7 +495,8 @@ func describeUnpack(r refpack.UnpackResult) string {
 }
 
 // unpackCheck compares string.unpack(fs, data[, init]) with the reference.
-func unpackCheck(fs, data string, init int64, hasInit bool, allowDanger bool) (fails []fail, sig string, nontrivial, skipped bool) {
+// Unless unlimited is set, formats with an "s" option run under callLimited.
+func unpackCheck(fs, data string, init int64, hasInit bool, unlimited bool) (fails []fail, sig string, nontrivial bool) {
 	P := platform()
 	l := lua()
 	f := refpack.Parse(P, fs)
@@ -528,9 +525,6 @@ func unpackCheck(fs, data string, init int64, hasInit bool, allowDanger bool) (f
 				}
 			}
 		}
-		if !allowDanger && (dangerous(a) || dangerous(b)) {
-			return nil, "", false, true
-		}
 		refs = []refpack.UnpackResult{a, b}
 	} else {
 		refs = []refpack.UnpackResult{{St: refpack.Unspec, Reason: "init-not-described"}}
@@ -539,10 +533,15 @@ func unpackCheck(fs, data string, init int64, hasInit bool, allowDanger bool) (f
 	if hasInit {
 		args = append(args, rt.IntValue(init))
 	}
-	got := call(l.unpack, args...)
+	var got res
+	if !unlimited && strings.Contains(fs, "s") {
+		got = callLimited(l.unpack, args...)
+	} else {
+		got = call(l.unpack, args...)
+	}
 	sig = got.String()
 	if got.status == "gopanic" {
-		return []fail{{"panic", "string.unpack: Go panic: " + got.err}}, sig, true, false
+		return []fail{{"panic", "string.unpack: Go panic: " + got.err}}, sig, true
 	}
 	nontrivial = true
 	clause := ""
@@ -552,7 +551,7 @@ func unpackCheck(fs, data string, init int64, hasInit bool, allowDanger bool) (f
 		}
 		ok, c := matchesUnpack(got, r)
 		if ok {
-			return nil, sig, nontrivial, false
+			return nil, sig, nontrivial
 		}
 		if clause == "" {
 			clause = c
@@ -563,25 +562,102 @@ func unpackCheck(fs, data string, init int64, hasInit bool, allowDanger bool) (f
 		detail += " or, aligning relative to init, " + describeUnpack(refs[1])
 	}
 	detail += "\nobserved " + got.String()
-	return []fail{{clause, detail}}, sig, true, false
+	return []fail{{clause, detail}}, sig, true
 }
 
-// attributeUnpack: smallest token subsequence that violates the same clause on
-// the same data and init.
-func attributeUnpack(toks []int, data string, init int64, hasInit bool, clause string) string {
-	for size := 1; size < len(toks); size++ {
-		for _, ss := range subseqs(len(toks), size) {
-			var st []int
-			for _, p := range ss {
-				st = append(st, toks[p])
-			}
-			fs := joinToks(st)
-			if fl, _, _, _ := unpackCheck(fs, data, init, hasInit, false); hasClause(fl, clause) {
-				return fs
+// unpackCase is one call of string.unpack.
+type unpackCase struct {
+	fs, data string
+	init     int64
+	hasInit  bool
+}
+
+func (c unpackCase) key(clause string) string {
+	if clause == "must-error" && refpack.Parse(platform(), c.fs).St == refpack.Err {
+		// the format itself is malformed: data and init are irrelevant
+		return fmt.Sprintf("unpack fmt=%q clause=malformed-format-accepted", c.fs)
+	}
+	return unpackKey(c.fs, c.data, c.init, c.hasInit, clause)
+}
+
+func (c unpackCase) fails(clause string) bool {
+	fl, _, _ := unpackCheck(c.fs, c.data, c.init, c.hasInit, false)
+	return hasClause(fl, clause)
+}
+
+// attributeUnpack reduces a failing unpack call to a smaller call violating
+// the same clause: init folded into the data, one option instead of several
+// (reading the data from where the reference says that option starts), and
+// the shortest data prefix.  One defect then yields few keys, whatever
+// surrounds it.  toks may be nil.
+func attributeUnpack(toks []int, c unpackCase, clause string) unpackCase {
+	P := platform()
+	// 1. fold init into the data
+	if c.hasInit {
+		n := int64(len(c.data))
+		pos := int64(-1)
+		switch {
+		case c.init > 0 && c.init <= n+1:
+			pos = c.init - 1
+		case c.init < 0 && -c.init <= n:
+			pos = n + c.init
+		}
+		if pos >= 0 {
+			if t := (unpackCase{fs: c.fs, data: c.data[pos:]}); t.fails(clause) {
+				c = t
 			}
 		}
 	}
-	return joinToks(toks)
+	// 2. a single option
+	f := refpack.Parse(P, c.fs)
+	reduced := false
+	if f.St == refpack.OK && len(f.Ops) > 1 && !c.hasInit {
+		r := refpack.Unpack(P, f, []byte(c.data), 0, 0)
+	ops:
+		for k, op := range f.Ops {
+			if k >= len(r.Starts) || r.Starts[k] > len(c.data) {
+				break
+			}
+			end := ""
+			if op.Little != P.Little {
+				end = map[bool]string{true: "<", false: ">"}[op.Little]
+			}
+			cands := []string{op.Text, end + op.Text, fmt.Sprintf("%s!%d%s", end, op.MaxAlign, op.Text)}
+			for _, cf := range cands {
+				if t := (unpackCase{fs: cf, data: c.data[r.Starts[k]:]}); t.fails(clause) {
+					c, reduced = t, true
+					break ops
+				}
+			}
+		}
+	}
+	if !reduced && len(toks) > 1 && joinToks(toks) == c.fs {
+	subs:
+		for size := 1; size < len(toks); size++ {
+			for _, ss := range subseqs(len(toks), size) {
+				var st []int
+				for _, p := range ss {
+					st = append(st, toks[p])
+				}
+				t := c
+				t.fs = joinToks(st)
+				if t.fails(clause) {
+					c = t
+					break subs
+				}
+			}
+		}
+	}
+	// 3. the shortest failing data prefix
+	if !c.hasInit {
+		for n := 0; n < len(c.data); n++ {
+			if t := (unpackCase{fs: c.fs, data: c.data[:n]}); t.fails(clause) {
+				c = t
+				break
+			}
+		}
+	}
+	return c
 }
 
 // ---------------------------------------------------------------- garbage data
@@ -629,12 +705,13 @@ func le(n uint64, size int) string {
 	return string(b)
 }
 
+// Length prefixes between 2^40 and 2^64-1 over a few bytes of data.  (Prefixes
+// of a few GiB are left out: whether such an allocation succeeds depends on
+// the machine, and an outcome must not.)
 var hugeCases = []hugeCase{
-	{"<s4", le(1<<30, 4)}, {"<s4", le(1<<31, 4)}, {"<s4", le(1<<32-1, 4) + "abc"},
-	{"<s8", le(1<<32, 8)}, {"<s8", le(1<<40, 8)}, {"<s8", le(1<<47, 8) + "abc"}, {"<s8", le(1<<48, 8)}, {"<s8", le(1<<62, 8)},
+	{"<s8", le(1<<40, 8)}, {"<s8", le(1<<48, 8)}, {"<s8", le(1<<62, 8)},
 	{"<s8", le(1<<63-1, 8)}, {"<s8", le(1<<63, 8)}, {"<s8", le(1<<64-1, 8)},
-	{"<s", le(1<<40, 8)}, {"<s16", le(1<<40, 16)}, {">s8", "\x00\x00\x01\x00\x00\x00\x00\x00"},
-	{"<s7", le(1<<40, 7)}, {"<s9", le(1<<63, 9)}, {"<s9", le(0, 8) + "\x01"},
+	{"<s16", le(1<<40, 16)}, {"<s9", le(1<<63, 9)}, {"<s9", le(0, 8) + "\x01"},
 }
 
 var argKinds = []struct {
@@ -787,12 +864,9 @@ func packFamilies(tier string) []*core.Family {
 		Run: func(i uint64) core.Outcome {
 			toks, data, init, has := initCase(i)
 			fs := joinToks(toks)
-			fails, sig, nt, sk := unpackCheck(fs, data, init, has, false)
-			if sk {
-				return core.Outcome{Skipped: true}
-			}
+			fails, sig, nt := unpackCheck(fs, data, init, has, false)
 			return outcomeOf(fails, sig, nt, func(clause string) string {
-				return unpackKey(fs, data, init, has, clause)
+				return attributeUnpack(toks, unpackCase{fs, data, init, has}, clause).key(clause)
 			}, fmt.Sprintf("string.unpack(%q, <%s>, %d) hasinit=%v", fs, hex.EncodeToString([]byte(data)), init, has))
 		},
 		Show: func(i uint64) string {
@@ -818,12 +892,9 @@ func packFamilies(tier string) []*core.Family {
 		Run: func(i uint64) core.Outcome {
 			toks, data := truncCase(i)
 			fs := joinToks(toks)
-			fails, sig, nt, sk := unpackCheck(fs, data, 0, false, false)
-			if sk {
-				return core.Outcome{Skipped: true}
-			}
+			fails, sig, nt := unpackCheck(fs, data, 0, false, false)
 			return outcomeOf(fails, sig, nt, func(clause string) string {
-				return unpackKey(fs, data, 0, false, clause)
+				return attributeUnpack(toks, unpackCase{fs: fs, data: data}, clause).key(clause)
 			}, fmt.Sprintf("string.unpack(%q, <%s>)", fs, hex.EncodeToString([]byte(data))))
 		},
 		Show: func(i uint64) string {
@@ -846,12 +917,9 @@ func packFamilies(tier string) []*core.Family {
 		Run: func(i uint64) core.Outcome {
 			toks, data, init, has := garbCase(i)
 			fs := joinToks(toks)
-			fails, sig, nt, sk := unpackCheck(fs, data, init, has, false)
-			if sk {
-				return core.Outcome{Skipped: true}
-			}
+			fails, sig, nt := unpackCheck(fs, data, init, has, false)
 			return outcomeOf(fails, sig, nt, func(clause string) string {
-				return unpackKey(attributeUnpack(toks, data, init, has, clause), data, init, has, clause)
+				return attributeUnpack(toks, unpackCase{fs, data, init, has}, clause).key(clause)
 			}, fmt.Sprintf("string.unpack(%q, <%s>, %d) hasinit=%v", fs, hex.EncodeToString([]byte(data)), init, has))
 		},
 		Show: func(i uint64) string {
@@ -860,11 +928,11 @@ func packFamilies(tier string) []*core.Family {
 		}}
 
 	// ---- unpack-hugelen: length prefixes far beyond the data
-	famHuge := &core.Family{Name: "unpack-hugelen", Size: uint64(len(hugeCases)), Serial: true, HangSeconds: 60,
+	famHuge := &core.Family{Name: "unpack-hugelen", Size: uint64(len(hugeCases)), Serial: true, HangSeconds: 30,
 		Run: func(i uint64) core.Outcome {
 			c := hugeCases[i]
 			defer debug.FreeOSMemory()
-			fails, sig, nt, _ := unpackCheck(c.fs, c.data, 0, false, true)
+			fails, sig, nt := unpackCheck(c.fs, c.data, 0, false, true)
 			return outcomeOf(fails, sig, nt, func(clause string) string {
 				return unpackKey(c.fs, c.data, 0, false, clause)
 			}, fmt.Sprintf("string.unpack(%q, <%s>)", c.fs, hex.EncodeToString([]byte(c.data))))
